@@ -1,6 +1,9 @@
 package props
 
 import (
+	"sort"
+	"strings"
+
 	"mpcverif/internal/lints"
 	"mpcverif/internal/load"
 	"mpcverif/internal/report"
@@ -125,4 +128,22 @@ func C04rand(p *load.Program, run *report.Run) {
 	run.Rule("short-read", "a Read on a caller-supplied io.Reader whose count is discarded must be io.ReadFull: a short read leaves the rest of a label (or of the offset R) zero")
 	lints.ShortRead(p, run, []string{"ot", "circuit"}, map[string]bool{"ot/label.go": true, "ot/co.go": true, "ot/co_helpers.go": true, "ot/cot.go": true, "ot/rot.go": true, "ot/iknp.go": true, "ot/rsa.go": true, "circuit/garble.go": true, "circuit/garbler.go": true, "circuit/stream_garble.go": true})
 	run.Floor("read-sites", 1)
+}
+
+// C08compare: a comparison that decides whether a kept circuit is reused must not
+// compare a value with its own copy (apps/garbled keeps the circuit of the previous session).
+func C08compare(p *load.Program, run *report.Run) {
+	run.Rule("compare-with-own-copy", "a slices/bytes/DeepEqual comparison or ==/!= between two path expressions, where one operand was assigned from the other earlier in the same statement list and nothing assigns to, takes the address of, passes to a call or captures either operand in between, is constant: what it guards (the circuit an evaluator keeps between sessions) is never refreshed; checked over every package of the module including apps, with built-in examples")
+	var pkgs []string
+	for path := range p.ByPath {
+		if path == load.Module {
+			pkgs = append(pkgs, "")
+		} else if strings.HasPrefix(path, load.Module+"/") {
+			pkgs = append(pkgs, strings.TrimPrefix(path, load.Module+"/"))
+		}
+	}
+	sort.Strings(pkgs)
+	lints.SelfCompare(p, run, pkgs)
+	run.Floor("compare-examples", 3)
+	run.Floor("key-comparisons", 4)
 }
